@@ -119,10 +119,13 @@ class RawPayloadDecoder(AbstractSimplePayloadDecoder):
                     allowEoo=True, **options):
 
                 if value is eoo.endOfOctets:
-                    if asn1Object is not noValue:
-                        # the caller takes the last item: not an underrun
-                        # that was reported after the value
-                        yield asn1Object
+                    if asn1Object is noValue:
+                        raise error.PyAsn1Error(
+                            'No value inside explicit tag at %s' % (tagSet,))
+
+                    # the caller takes the last item: not an underrun
+                    # that was reported after the value
+                    yield asn1Object
 
                     return
 
